@@ -280,9 +280,10 @@ def native_replay(pid, specdir, g, scratch, stack, tape, wd):
     tu = os.path.join(specdir, g['tu'])
     defs = cflags(scratch, [g.get('stack', stack)] + g.get('defs', []) + ['-DVERIF_NATIVE', '-DVERIF_MODE_H',
                                                                             '-DVERIF_HARNESS=' + g['harness']])
-    cmd = ['gcc', '-O0', '-g', '-w', '-fsanitize=address,undefined', '-fno-sanitize-recover=undefined'] + defs + \
+    cmd = ['gcc', '-O0', '-g', '-w', '-ffunction-sections', '-fdata-sections', '-fsanitize=address,undefined',
+           '-fno-sanitize-recover=undefined'] + defs + \
           [tu, os.path.join(VERIF, 'rt', 'verif_native_main.c'), '-o', exe, '-lpthread',
-           '-Wl,--unresolved-symbols=ignore-all']  # functions of the TU that the harness never calls may reference absent code
+           '-Wl,--gc-sections']  # functions of the TU that the harness never calls may reference absent code: dropped
     rc, out, err, _ = run(cmd, 300)
     if rc != 0:
         return False, 'native build failed: ' + err[-1500:], ' '.join(cmd)
@@ -557,11 +558,27 @@ def make_replay(pid, specdir, g, o, scratch, tier, stack):
     wd = os.path.join(scratch, 'replay_' + hashlib.md5(o['key'].encode()).hexdigest()[:8])
     os.makedirs(wd, exist_ok=True)
     g2 = dict(g)
-    g2['name'] = g['name']
-    r = run_group(pid, specdir, g2, scratch, tier, stack, want_trace=o['name'])
+    target = o['name']
+    if g.get('mode') == 'D' and g.get('kind') != 'lemmas':
+        # DFCC's own havocs (replaced callees) are not on the tape: re-run the same obligation group in harness mode
+        # (callee contracts expanded by hand into stubs that draw from the tape) and trace whatever fails there
+        g2['mode'] = 'H'
+        g2['name'] = g['name'] + '_H'
+        g2['loop_contracts'] = True
+        r0 = run_group(pid, specdir, g2, scratch, tier, stack)
+        cand = [ob for ob in r0['obligations'] if ob['status'] == 'FAILURE' and ob['cls'] not in ('canary', 'unwinding', 'no-body')]
+        if r0['error'] or not cand:
+            rec['note'] = 'harness-mode re-run gave no failing obligation to trace (%s); verifier output of the contract run stands' % (r0['error'] or 'all passed')
+            rec['verifier_cmds'] = r0['cmds']
+            json.dump(rec, open(path, 'w'), indent=1)
+            return rec
+        pref = [ob for ob in cand if ob['description'] == o['description']] or cand
+        target = pref[0]['name']
+        rec['harness_mode_obligation'] = pref[0]['key']
+    r = run_group(pid, specdir, g2, scratch, tier, stack, want_trace=target)
     trace = None
     for ob in r['obligations']:
-        if ob['name'] == o['name'] and ob.get('trace'):
+        if ob['name'] == target and ob.get('trace'):
             trace = ob['trace']
     rec['verifier_cmds'] = r['cmds']
     if trace is None:
